@@ -5,9 +5,13 @@ Require Extraction.
 Require Import ExtrOcamlBasic.
 From Coq Require Import ZArith List.
 From SVC Require Import Base.AMap Base.Res Base.Dec Model.Types Model.Pricing
-  Model.Handlers Model.EndBlock Model.Step.
+  Model.Handlers Model.EndBlock Model.Step Model.Queries.
 Extraction Language OCaml.
 Set Extraction KeepSingleton.
 Extraction "model.ml" step init run get_price exchanged_price min_deposit disc_time disc_vol
   parse_pricing validate_pricing mul_trunc bal Z.add Z.mul Z.div Z.modulo Z.of_nat Z.to_nat Z.opp
-  Z.eqb Z.ltb Z.leb Pos.add Pos.mul.
+  Z.eqb Z.ltb Z.leb Pos.add Pos.mul
+  q_definition q_binding q_bindings q_withdraw_address q_request_context q_request q_requests
+  q_requests_by_ctx q_response q_responses q_earned_fees q_schema q_params
+  lq_definition lq_binding lq_bindings lq_withdraw_address lq_request_context lq_request lq_requests
+  lq_requests_by_ctx lq_response lq_responses lq_earned_fees lq_schema lq_params zero_request.
